@@ -5,9 +5,10 @@ import XixiKV.Proofs.CrashHistorySteps
 * `DurC`: the durability invariant of `Proofs/EnginePolicy.lean` together with "the handle keeps
   its configuration and directory", through every call (`DurC_astep`);
 * `RunInv`: history link + size invariant + durability invariant, through every history
-  (`RunInv_arun`);
-* `Durable s n`: the first `n` units of the log of `s` lie inside the flushed prefixes of the files;
-* `crash_of_RunInv`: the crash theorem in terms of the bookkeeping.
+  (`RunInv_arun`); `IdsOK_of_fresh`: pairwise distinct unused ids satisfy `IdsOK`;
+* `Durable s n`: at least `n` units of the log of `s` lie inside the flushed prefixes of the files;
+* `crash_of_RunInv`: the crash theorem in terms of the bookkeeping (recovered mapping, invariants
+  of the recovered handle).
 -/
 namespace XixiKV.C03H
 open XixiKV XixiKV.Frame XixiKV.Record XixiKV.Index XixiKV.Engine XixiKV.Engine.Restart
@@ -105,6 +106,32 @@ theorem DurC_arun {cfg : Cfg} {dir : String} (ops : List AOp) : ∀ {s : St}, Du
   induction ops with
   | nil => intro s h; exact h
   | cons op ops ih => intro s h; exact ih (DurC_astep h op)
+
+/-! ## a history touches the handle's own directory only -/
+
+theorem astep_frame {s : St} {db : DB} (hs : s.db = some db) (op : AOp) : Framed s (astep s op).1 db := by
+  cases op with
+  | put k v => exact put_frame hs k v
+  | del k => exact delete_frame hs k
+  | get k =>
+    show Framed s (get s k).1 db
+    rw [Dur.get_state]; exact ⟨Fr.refl _ _, db, hs, rfl⟩
+  | sync => exact syncDB_frame hs
+  | bnew sy id => exact bnew_frame hs sy id
+  | bput k v => exact bput_frame hs k v
+  | bdel k => exact bdel_frame hs k
+  | bget k => exact bget_frame hs k
+  | bcommit => exact bcommit_frame hs
+  | bdrop => exact bdrop_frame hs
+
+theorem arun_frame (ops : List AOp) : ∀ {s : St} {db : DB}, s.db = some db → Framed s (arun s ops) db := by
+  induction ops with
+  | nil => intro s db hs; exact ⟨Fr.refl _ _, db, hs, rfl⟩
+  | cons op ops ih =>
+    intro s db hs
+    have h1 := astep_frame hs op
+    obtain ⟨db', hs', _⟩ := h1.2
+    exact h1.trans hs' (ih hs')
 
 /-! ## the combined run invariant -/
 
